@@ -137,15 +137,27 @@ def file_identity_rules(ctx, rid):
         gp = cands[0] if len(cands) == 1 else prog.must_body("acmed::storage::get_file_full_path")
     FMK = "acmed::storage::FileManager"
     want = {"PrivateKey": "PKEXT", "Certificate": "CERTEXT"}
+    from ..absint import NONE as _NONE
     for ft in prog.adt_variants(FT):
-        fm = struct_val(prog, FMK, {"pk_file_ext": some(marker("PKEXT")), "cert_file_ext": some(marker("CERTEXT")), "crt_directory": marker("CRTDIR"),
-                                    "account_directory": marker("ACCDIR")})
+      # every combination of the two extension options being set: an unset one falls back to the constant default, never to the OTHER
+      # file's extension (with a name format without {{ file_type }} that would make key and certificate one path)
+      for pk_set, crt_set in ((True, True), (True, False), (False, True), (False, False)):
+        fm = struct_val(prog, FMK, {"pk_file_ext": some(marker("PKEXT")) if pk_set else _NONE, "cert_file_ext": some(marker("CERTEXT")) if crt_set else _NONE,
+                                    "crt_directory": marker("CRTDIR"), "account_directory": marker("ACCDIR")})
+        combo = "pk_file_ext %s, cert_file_ext %s" % ("set" if pk_set else "unset", "set" if crt_set else "unset")
+        ckey = "%d%d" % (pk_set, crt_set)
 
         def model(cs, args):
             if cs.is_("acmed::template::render_template"):
                 return Val("adt", [Val("unknown", "RENDERED")], ("core::result::Result", "Ok"))
             return None
-        r = run(gp, {1: Val("ref", fm), 2: variant(FT, ft)}, model, max_steps=20000)
+        try:
+            r = run(gp, {1: Val("ref", fm), 2: variant(FT, ft)}, model, max_steps=20000)
+        except Exception as e_:
+            if pk_set and crt_set:
+                raise
+            ctx.notes.append("get_file_full_path could not be evaluated for %s (%s): %s" % (ft, combo, e_))
+            continue
         rt = [a for c, a, res in r.calls if c.is_("acmed::template::render_template")]
         if ft in want:
             ext = None
@@ -156,11 +168,17 @@ def file_identity_rules(ctx, rid):
                     names = prog.adt_fields("acmed::storage::CertFileFormat")
                     ext = repr(data.v[names.index("ext")].deref())
                     ftv = repr(data.v[names.index("file_type")].deref())
-            ctx.require(rid, ext is not None and want[ft] in ext and all(o not in ext for k_, o in want.items() if k_ != ft), "%s:%s" % (gp.file, gp.line),
-                        "the %s file name uses its own configured extension (%s; run %s)" % (ft, ext, r.kind), ["storage::get_file_full_path", "ext", ft])
-            ctx.require(rid, ftv is not None and ("to_string" in ftv or ft in ftv), "%s:%s" % (gp.file, gp.line), "the name template receives the file type (%s)" % ftv,
-                        ["storage::get_file_full_path", "file-type-var", ft])
-        else:
+            own_set = pk_set if ft == "PrivateKey" else crt_set
+            if pk_set and crt_set:
+                ctx.require(rid, ext is not None and want[ft] in ext and all(o not in ext for k_, o in want.items() if k_ != ft), "%s:%s" % (gp.file, gp.line),
+                            "the %s file name uses its own configured extension (%s; run %s)" % (ft, ext, r.kind), ["storage::get_file_full_path", "ext", ft])
+                ctx.require(rid, ftv is not None and ("to_string" in ftv or ft in ftv), "%s:%s" % (gp.file, gp.line), "the name template receives the file type (%s)" % ftv,
+                            ["storage::get_file_full_path", "file-type-var", ft])
+            elif ext is not None:
+                ctx.require(rid, (want[ft] in ext) == own_set and all(o not in ext for k_, o in want.items() if k_ != ft), "%s:%s" % (gp.file, gp.line),
+                            "%s: the %s extension is %s, never the other file's (%s)" % (combo, ft, "the configured one" if own_set else "the built-in default", ext),
+                            ["storage::get_file_full_path", "ext", ft, ckey])
+        elif pk_set and crt_set:
             ctx.require(rid, r.kind == "return" and not rt, "%s:%s" % (gp.file, gp.line), "the account file name does not go through the certificate name template", ["storage::get_file_full_path", "account-name"])
 
 
